@@ -32,6 +32,7 @@ REGISTRY = {
     "C14": ("auverif.props.c14", "run"),
     "C15": ("auverif.props.c15", "run"),
     "C16": ("auverif.props.c16", "run"),
+    "C17": ("auverif.props.c17", "run"),
 }
 
 
